@@ -499,7 +499,9 @@ def row_index_provenance(rep):
                         # guarded at most by "'it' in data"
                         conds = [c for c in ancestors(a) if isinstance(c, ast.If)
                                  and c.lineno > loop.lineno]
-                        if all("'it' in data" in unparse(c.test) for c in conds):
+                        from . import boolnorm as B
+                        if all(B.qform(resolve(fn, c.test)) == ("in", (("s", "it"),), "data")
+                               for c in conds):
                             ok = True
         rep.check(ok, "row-index-provenance", key, why, node=w,
                   detail={"row": unparse(row)})
@@ -1150,15 +1152,45 @@ def restart_selection(rep):
               "restarts must be scanned from the latest to the earliest and the scan must stop "
               "at the first restart containing the iteration (an iteration present in several "
               "restarts is taken from the latest one)", node=outer)
-    # flattening
-    fl = None
+    # flattening: the loop that appends  datar[restart][key][row]  to the columns of the result
+    stores = []
     for n in ast.walk(fn):
-        if isinstance(n, ast.For) and unparse(n.iter) == "old_it":
-            fl = n
-    ok = fl is not None and "for restart in datar.keys()" in unparse(fl) \
-        and "data[key] += [datar[restart][key][it_index]]" in unparse(fl) \
-        and any(isinstance(n, ast.Assign) and unparse(n) == "old_it = it.copy()"
-                for n in ast.walk(fn))
+        val = None
+        if isinstance(n, ast.AugAssign) and isinstance(n.op, ast.Add) \
+                and isinstance(n.target, ast.Subscript) and isinstance(n.value, ast.List) \
+                and len(n.value.elts) == 1:
+            val, tgt = n.value.elts[0], n.target
+        elif isinstance(n, ast.Call) and isinstance(n.func, ast.Attribute) \
+                and n.func.attr == "append" and isinstance(n.func.value, ast.Subscript) \
+                and len(n.args) == 1:
+            val, tgt = n.args[0], n.func.value
+        if val is None:
+            continue
+        v = resolve(fn, val, 0, {"datar", "it", "old_it"})
+        if isinstance(v, ast.Subscript) and isinstance(v.value, ast.Subscript) \
+                and isinstance(v.value.value, ast.Subscript) \
+                and unparse(v.value.value.value) == "datar":
+            stores.append((n, tgt, v))
+    if len(stores) != 1:
+        raise AnalysisError("read_ET_data: the loop assembling the final table was not found")
+    stn, tgt, v = stores[0]
+    rkey, ckey, row = unparse(v.value.value.slice), unparse(v.value.slice), v.slice
+    loops = [a for a in ancestors(stn) if isinstance(a, ast.For)]
+    outer_ok = False
+    for lp in loops:
+        src = rtext(fn, lp.iter, {"it"})
+        if src in ("it.copy()", "list(it)", "it[:]", "it", "sorted(it)"):
+            itvar = unparse(lp.target)
+            outer_ok = lp is loops[-1] or all(l2.lineno >= lp.lineno for l2 in loops)
+    rowtxt = rtext(fn, row, {"datar", "it", "old_it"})
+    ok = outer_ok and unparse(tgt.slice) == ckey \
+        and f"datar[{rkey}]['it']" in rowtxt and itvar in rowtxt \
+        and any(isinstance(lp, ast.For) and unparse(lp.target) == rkey
+                and unparse(lp.iter) in ("datar", "datar.keys()") for lp in loops) \
+        and any(isinstance(lp, ast.For) and unparse(lp.target) == ckey
+                and unparse(lp.iter) in (f"datar[{rkey}]", f"datar[{rkey}].keys()")
+                for lp in loops)
+    fl = loops[-1] if loops else fn
     rep.check(ok, "restart-selection", key + "::flatten-in-request-order",
               "the final table must be assembled in the order of the requested (sorted) "
               "iterations, all columns of one iteration from one row", node=fl or fn)
@@ -1166,18 +1198,23 @@ def restart_selection(rep):
     for q in ("read_ET_group_or_var", "read_ET_checkpoints"):
         f2 = fnode(rep, q)
         sites = [n for n in ast.walk(f2) if isinstance(n, ast.If)
-                 and unparse(n.test) == "len(key) != 1"]
+                 and unparse(n.test) in ("len(key) != 1", "len(key) == 1")]
         ok = bool(sites)
-        for s in sites:
-            # every exit of the site either raises or has reduced `key` to its single element
+        for s_ in sites:
+            # every exit of the "not exactly one key" side either raises or has reduced `key`
+            # to its single element; the other side takes the single element
             def exits_ok(blk):
+                if not blk:
+                    return False
                 last = blk[-1]
                 if isinstance(last, ast.Raise):
                     return True
                 if isinstance(last, ast.If):
                     return exits_ok(last.body) and bool(last.orelse) and exits_ok(last.orelse)
                 return isinstance(last, ast.Assign) and unparse(last) == "key = key[0]"
-            ok = ok and exits_ok(s.body) and bool(s.orelse) and exits_ok(s.orelse)
+            bad_side, good_side = (s_.body, s_.orelse) if "!=" in unparse(s_.test) \
+                else (s_.orelse, s_.body)
+            ok = ok and exits_ok(bad_side) and bool(good_side) and exits_ok(good_side)
         rep.check(ok, "restart-selection", f"{RD}::{q}::ambiguous-key-raises",
                   "an ambiguous or missing dataset key must raise instead of picking one",
                   node=f2)
